@@ -63,16 +63,16 @@ func (a addr) String() string  { return string(a) }
 type Transport struct {
 	G Gater
 
-	mu        sync.Mutex
-	Stream    []byte // every byte handed to the transport, in order
-	Records   [][]byte
-	FlushedTo int // len(Stream) at the last successful Flush
-	Closes    int
-	closed    bool
-	closedCh  chan struct{}
-	Ops       []Op
-	seq       int
-	AfterClos int // bytes written after Close (must stay 0)
+	mu               sync.Mutex
+	Stream           []byte // every byte handed to the transport, in order
+	Records          [][]byte
+	FlushedTo        int // len(Stream) at the last successful Flush
+	Closes           int
+	closed           bool
+	closedCh         chan struct{}
+	Ops              []Op
+	seq              int
+	AfterClos        int // bytes written after Close (must stay 0)
 	StreamAtClose    int // len(Stream) when Close was first called (-1 = not closed)
 	UnflushedAtClose int // bytes written but not flushed at that moment
 
@@ -115,13 +115,13 @@ func (c *Conn) Write(p []byte) (int, error) {
 	c.mu.Unlock()
 	return len(p), nil
 }
-func (c *Conn) Read(p []byte) (int, error)         { select {} }
-func (c *Conn) Close() error                       { return nil }
-func (c *Conn) LocalAddr() net.Addr                { return addr("conn-local") }
-func (c *Conn) RemoteAddr() net.Addr               { return addr("conn-remote") }
-func (c *Conn) SetDeadline(time.Time) error        { return nil }
-func (c *Conn) SetReadDeadline(time.Time) error    { return nil }
-func (c *Conn) SetWriteDeadline(time.Time) error   { return nil }
+func (c *Conn) Read(p []byte) (int, error)       { select {} }
+func (c *Conn) Close() error                     { return nil }
+func (c *Conn) LocalAddr() net.Addr              { return addr("conn-local") }
+func (c *Conn) RemoteAddr() net.Addr             { return addr("conn-remote") }
+func (c *Conn) SetDeadline(time.Time) error      { return nil }
+func (c *Conn) SetReadDeadline(time.Time) error  { return nil }
+func (c *Conn) SetWriteDeadline(time.Time) error { return nil }
 
 // sinkCheck runs under t.mu after an operation was forwarded to the sink.
 func (t *Transport) sinkCheck(op string, err error, flushed bool) {
